@@ -203,8 +203,17 @@ def _chain_cases(rng, tier):
         rows, has_cn1 = _table(rng, small=rng.random() < 0.6)
         fl = [rng.choice(FILTERS) for _ in range(rng.choice([1, 2, 2, 3]))]
         cols = _cols_for(rng, rows, has_cn1, drop=rng.choice([0.0, 0.0, 0.3]))
-        cases.append({"op": "filter_chain", "tag": "chain:" + "+".join(fl),
-                      "in": {"rows": _blank(rows, cols), "cols": cols, "filters": fl}})
+        rows = _blank(rows, cols)
+        nan = rng.random() < 0.3
+        if nan:
+            # missing (NaN) segmetrics values in a column that is present: 1-bin segments have no sem, a failed
+            # bootstrap no ci -- every comparison with NaN is False, the row is neutral
+            for r in rows:
+                for k in (10, 11, 12):
+                    if rng.random() < 0.25:
+                        r[k] = None
+        cases.append({"op": "filter_chain", "tag": ("chain-nan:" if nan else "chain:") + "+".join(fl),
+                      "in": {"rows": rows, "cols": cols, "filters": fl}})
     q = {"quick": 120, "thorough": 1200, "search": 120}[tier]
     for k in range(q):
         rows, _h = _table(rng, small=rng.random() < 0.6)
